@@ -201,7 +201,7 @@ def m_str_with_dot(draw, ir):
 
 def m_str_with_space(draw, ir):
     p = _ensure_param(draw, ir, "str")
-    p["default"] = draw(st.sampled_from(("two words", "a b c")))
+    p["default"] = draw(st.sampled_from(("two words", "a b c", "so long and thanks for all the fish")))
 
 
 def m_empty_str(draw, ir):
